@@ -252,6 +252,8 @@ fn components(thorough: bool) -> (Vec<&'static str>, Vec<(&'static str, Option<(
         ("%75ser:p%2Fw", Some(("user", "p/w"))),
         ("u%25:p%20q", Some(("u%", "p q"))),
         ("guest:guest", Some(("guest", "guest"))),
+        ("team+ci:Zm9v+YmFy", Some(("team+ci", "Zm9v+YmFy"))),
+        ("a%2Bb:c%2Bd", Some(("a+b", "c+d"))),
     ];
     let mut hosts = vec![("", None), ("h", Some("h")), ("h.example", Some("h.example")), ("127.0.0.1", Some("127.0.0.1")), ("[::1]", Some("[::1]"))];
     if thorough {
@@ -268,6 +270,8 @@ fn components(thorough: bool) -> (Vec<&'static str>, Vec<(&'static str, Option<(
         ("/a%2Fb", Ok("a/b")),
         ("/v%20w", Ok("v w")),
         ("/%25", Ok("%")),
+        ("/prod+eu", Ok("prod+eu")),
+        ("/a%2Bb", Ok("a+b")),
         ("/v/extra", Err("ExtraUrlPathSegments")),
         ("/a/b/c", Err("ExtraUrlPathSegments")),
     ];
